@@ -252,3 +252,111 @@ pub fn qw_main(rest: &[String]) -> i32 {
     println!("{}", json!({"schedules":n,"moves":moves,"trace_lines":lines,"wall_s":t0.elapsed().as_secs_f64()}));
     0
 }
+
+
+// ---------------------------------------------------------------------------------------------------------------------
+// C12 with several batches in flight (spec/QWNet.tla): real BatchMaker -> ReliableSender -> (harness peers) -> QuorumWaiter
+
+async fn run_qwnet(beh: &[Value], stakes: &[u32], recs: &mut Vec<Value>) {
+    use futures::SinkExt;
+    let n = stakes.len();
+    let mut cfg = RigCfg::new(n);
+    cfg.stakes = stakes.to_vec();
+    cfg.real = vec![false; n];
+    let rig = Rig::new(cfg);
+    simnet::set_current(0);
+    let peers: Vec<_> = (1..n).map(|i| (rig.keys[i].0, crate::rig::addr(i, crate::rig::Port::Mempool))).collect();
+    let (tx_transaction, rx_transaction) = channel(1000);
+    let (tx_message, rx_message) = channel::<QuorumWaiterMessage>(1000);
+    let batch_size = 16usize;
+    BatchMaker::spawn(batch_size, 1_000_000, rx_transaction, tx_message, peers);
+    let (tx_batch, mut rx_batch) = channel::<Vec<u8>>(1000);
+    QuorumWaiter::spawn(rig.mcommittee.clone(), stakes[0], rx_message, tx_batch);
+    settle().await;
+    let mut conns: Vec<(usize, Framed<tokio::io::DuplexStream, LengthDelimitedCodec>)> = Vec::new();
+    let mut unanswered: Vec<std::collections::VecDeque<usize>> = vec![Default::default(); n];
+    let mut index_of: std::collections::HashMap<Vec<u8>, usize> = Default::default(); // serialized batch -> batch number
+    let mut sealed = 0usize;
+    let mut released: Vec<usize> = Vec::new();
+    for act in beh {
+        let a = act["a"].as_str().unwrap();
+        let mut rec = json!({"t":"qn","ev":a});
+        match a {
+            "seal" => {
+                sealed += 1;
+                let mut t = vec![1u8; batch_size];
+                t[1..9].copy_from_slice(&(sealed as u64).to_be_bytes());
+                let ser = bincode::serialize(&MempoolMessage::Batch(vec![t.clone()])).unwrap();
+                index_of.insert(ser, sealed);
+                let _ = tx_transaction.send(t).await;
+            }
+            "ack" => {
+                let p = act["p"].as_u64().unwrap() as usize;
+                let b = unanswered[p].pop_front().unwrap_or(0);
+                if b != 0 {
+                    if let Some((_, c)) = conns.iter_mut().find(|(q, _)| *q == p) {
+                        let _ = c.send(Bytes::from("Ack")).await;
+                    }
+                }
+                rec["p"] = json!(p);
+                rec["b"] = json!(b);
+            }
+            other => panic!("unknown move {}", other),
+        }
+        settle().await;
+        settle().await;
+        for ic in simnet::take_intercepted() {
+            let (to, _) = crate::rig::port_of(&ic.dest);
+            conns.push((to, Framed::new(ic.stream, LengthDelimitedCodec::new())));
+        }
+        for (to, c) in conns.iter_mut() {
+            while let Some(Some(Ok(f))) = c.next().now_or_never() {
+                unanswered[*to].push_back(index_of.get(&f[..]).cloned().unwrap_or(usize::MAX));
+            }
+        }
+        recs.push(rec);
+        while let Ok(bytes) = rx_batch.try_recv() {
+            released.push(index_of.get(&bytes).cloned().unwrap_or(usize::MAX));
+        }
+        let mut o = json!({"t":"qn","ev":"observed","released":released});
+        let panics = crate::util::take_panics();
+        if !panics.is_empty() {
+            o["panic"] = json!(panics);
+        }
+        recs.push(o);
+    }
+}
+
+/// hsverif qwnet in=<schedules> out=<trace> stakes=me,p1,p2,..
+pub fn qwnet_main(rest: &[String]) -> i32 {
+    let a = Args::parse(rest);
+    let input = a.str("in", "schedules.ndjson");
+    let out = a.str("out", "trace.ndjson");
+    let stakes = a.list_u32("stakes").unwrap_or_else(|| vec![1, 1, 1, 1]);
+    let mut w = NdWriter::create(&out);
+    let (mut n, mut moves) = (0usize, 0usize);
+    let t0 = std::time::Instant::now();
+    let mut first = true;
+    for beh in read_schedules(&input, a.usize("limit", usize::MAX)) {
+        let rt = tokio::runtime::Builder::new_current_thread().enable_all().start_paused(true).build().unwrap();
+        let mut recs = Vec::new();
+        let r = std::panic::catch_unwind(std::panic::AssertUnwindSafe(|| rt.block_on(run_qwnet(&beh, &stakes, &mut recs))));
+        let _ = r;
+        if first {
+            w.write(&json!({"t":"reset","stakes":stakes}));
+            first = false;
+        } else {
+            w.write(&json!({"t":"reset"}));
+        }
+        for e in recs {
+            w.write(&e);
+        }
+        n += 1;
+        moves += beh.len();
+    }
+    w.write(&json!({"t":"end"}));
+    let lines = w.lines;
+    w.finish();
+    println!("{}", json!({"schedules":n,"moves":moves,"trace_lines":lines,"wall_s":t0.elapsed().as_secs_f64()}));
+    0
+}
